@@ -135,69 +135,38 @@ impl Arena {
 
 //@@fn file=unsync.rs scope="impl Arena {" name=get_segment_node xlate=unsync st=ref props=C01,C04
 //@subst /unsafe \{\s*let ptr = self\.ptr\.add\(offset as usize\);\s*&\*\(ptr as \*const _\)\s*\}/ => CellRef::Node(offset)
-//@contract
-  requires
-    offset as int % 8 == 0, // [C01 C10]
-    st@.lo <= offset as int, // [C01 C16]
-    offset as int + 8 <= st@.bytes.len(), // [C01 C04]
-  ensures r == CellRef::Node(offset),
+//@contract @get_segment_node
 //@@end
 
 //@@fn file=unsync.rs scope="impl Arena {" name=pad props=C03,C04
-//@contract
-  requires layout_ok::<T>(), size_of::<T>() as int + align_of::<T>() as int <= usize::MAX as int, // [C04]
-  ensures r as int == size_of::<T>() as int + align_of::<T>() as int - 1, // [C03]
+//@contract @pad
 //@@end
 
 //@@fn file=unsync.rs scope="impl Allocator for Arena {" name=increase_discarded xlate=unsync st=mut props=C20,C09
-//@contract
-  requires
-    !self.ro && old(st)@.writable, // [C09 C04]
-    old(st)@.discarded + size as int <= u32::MAX as int, // [C20]
-  ensures
-    final(st)@ == (SV { discarded: old(st)@.discarded + size as int, ..old(st)@ }), // [C20]
+//@contract @increase_discarded
 //@@end
 
 //@@fn file=unsync.rs scope="impl Allocator for Arena {" name=increase_discarded rename=increase_discarded__ro xlate=unsync st=mut props=C09
 //@subst /rt_panic\(\)/ => rt_panic_documented()
-//@contract
-  requires self.ro && !old(st)@.writable,
-  ensures false, // [C09]
+//@contract @increase_discarded__ro
 //@@end
 
 //@@fn file=unsync.rs scope="impl Allocator for Arena {" name=allocated xlate=unsync st=ref props=C15,C16
-//@contract
-  ensures r as int == st@.allocated, // [C15 C16 C11]
+//@contract @allocated
 //@@end
 
 //@@fn file=unsync.rs scope="impl Allocator for Arena {" name=remaining xlate=unsync st=ref props=C16
-//@contract
-  requires st@.allocated <= self.cap as int,
-  ensures r as int == self.cap as int - st@.allocated, // [C16 C11]
+//@contract @remaining
 //@@end
 
 //@@fn file=unsync.rs scope="impl Arena {" name=validate_segment xlate=unsync st=ref props=C10
-//@contract
-  requires
-    offset != 0 && size != 0 ==> offset as int + 8 <= u32::MAX as int, // [C04]
-  ensures
-    r == seg_valid(st@, offset as int, size as int), // [C10 C20]
+//@contract @validate_segment
 //@before 1 /let aligned_offset = align_offset::<u64>/
     proof { axiom_u64_layout(); }
 //@@end
 
 //@@fn file=unsync.rs scope="impl Arena {" name=try_new_segment xlate=unsync st=mut props=C10,C20
-//@contract
-  requires
-    offset != 0 && size != 0 ==> offset as int + 8 <= u32::MAX as int, // [C04]
-    offset != 0 && size != 0 ==> offset as int + size as int <= u32::MAX as int, // [C04]
-    offset != 0 && size != 0 ==> old(st)@.discarded + (if seg_valid(old(st)@, offset as int, size as int) { 0 } else { size as int }) <= u32::MAX as int, // [C20]
-    !self.ro && old(st)@.writable, // [C09]
-  ensures
-    r.is_some() == seg_valid(old(st)@, offset as int, size as int), // [C10 C20]
-    r matches Some(seg) ==> final(st)@ == old(st)@ && seg_node(offset as int, size as int) == (seg.ptr_offset, seg.data_size)
-        && seg.data_offset == seg.ptr_offset + 8 && seg.ptr == self.ptr, // [C10 C01]
-    r.is_none() ==> final(st)@ == (SV { discarded: old(st)@.discarded + (if offset == 0 || size == 0 { 0 } else { size as int }), ..old(st)@ }), // [C20]
+//@contract @try_new_segment
 //@before 1 /let aligned_offset = align_offset::<u64>/
     proof { axiom_u64_layout(); }
 //@@end
@@ -205,12 +174,7 @@ impl Arena {
 // ---- list traversal -----------------------------------------------------------------------------------------
 
 //@@fn file=unsync.rs scope="impl Arena {" name=find_position xlate=unsync st=ref props=C10
-//@contract
-  requires
-    wf_shape(self.av(), st@),
-    forall|a: u32, b: u32| check.requires((a, b)),
-  ensures
-    forall|asc: bool| #[trigger] tr(asc) && cmp_is(check, asc) ==> fp_post(st@, val, asc, r), // [C10]
+//@contract @find_position
 //@before 1 /^\s*loop/
     let ghost mut idx: int = -1;
     proof { lemma_dec_enc(size_of_cell(st@.list, -1), next_of(st@.list, -1)); }
@@ -245,12 +209,7 @@ impl Arena {
 //@@end
 
 //@@fn file=unsync.rs scope="impl Arena {" name=find_prev_and_next xlate=unsync st=ref props=C10
-//@contract
-  requires
-    wf_shape(self.av(), st@),
-    forall|a: u32, b: u32| check.requires((a, b)),
-  ensures
-    forall|asc: bool| #[trigger] tr(asc) && cmp_is(check, asc) ==> fpn_post(st@, val, asc, r), // [C10]
+//@contract @find_prev_and_next
 //@before 1 /^\s*loop/
     let ghost mut idx: int = -1;
     proof { lemma_dec_enc(size_of_cell(st@.list, -1), next_of(st@.list, -1)); }
@@ -289,24 +248,7 @@ impl Arena {
 //@@fn file=unsync.rs scope="impl Arena {" name=pessimistic_dealloc xlate=unsync st=mut props=C10,C01,C20
 //@closure
   b == (val <= next_node_size)
-//@contract
-  requires
-    wf(self.av(), old(st)@),
-    self.freelist == Freelist::Pessimistic,
-    !self.ro && old(st)@.writable, // [C09]
-    extent_ok(self.av(), old(st)@, offset as int, size as int), // [C01 C10]
-    old(st)@.discarded + (if seg_valid(old(st)@, offset as int, size as int) { 8 } else { size as int }) <= u32::MAX as int, // [C20]
-  ensures
-    wf_shape(self.av(), final(st)@), // [C01 C10]
-    wf_order(self.av(), final(st)@), // [C10]
-    r == seg_valid(old(st)@, offset as int, size as int), // [C10 C20]
-    r ==> final(st)@.list == list_insert(old(st)@.list, seg_node(offset as int, size as int), true), // [C10]
-    r ==> final(st)@.discarded == old(st)@.discarded + 8, // [C20]
-    !r ==> final(st)@ == (SV { discarded: old(st)@.discarded + (if offset == 0 || size == 0 { 0 } else { size as int }), ..old(st)@ }), // [C20]
-    frame_ok(old(st)@.list, old(st)@.bytes, final(st)@.bytes, offset as int, offset as int + size as int), // [C01]
-    free_grows(old(st)@, final(st)@, offset as int, offset as int + size as int), // [C01]
-    final(st)@.allocated == old(st)@.allocated, final(st)@.min_seg == old(st)@.min_seg, // [C01]
-    final(st)@.writable == old(st)@.writable, final(st)@.lo == old(st)@.lo,
+//@contract @pessimistic_dealloc
 //@before 1 /let Some\(mut segment_node\) = self\.try_new_segment/
     proof { lemma_seg_node_bounds(offset as int, size as int); lemma_seg_valid_extent(self.av(), old(st)@, offset as int, size as int); }
 //@before 1 /return false;/
@@ -344,24 +286,7 @@ impl Arena {
 //@@fn file=unsync.rs scope="impl Arena {" name=optimistic_dealloc xlate=unsync st=mut props=C10,C01,C20
 //@closure
   b == (val >= next_node_size)
-//@contract
-  requires
-    wf(self.av(), old(st)@),
-    self.freelist == Freelist::Optimistic,
-    !self.ro && old(st)@.writable, // [C09]
-    extent_ok(self.av(), old(st)@, offset as int, size as int), // [C01 C10]
-    old(st)@.discarded + (if seg_valid(old(st)@, offset as int, size as int) { 8 } else { size as int }) <= u32::MAX as int, // [C20]
-  ensures
-    wf_shape(self.av(), final(st)@), // [C01 C10]
-    wf_order(self.av(), final(st)@), // [C10]
-    r == seg_valid(old(st)@, offset as int, size as int), // [C10 C20]
-    r ==> final(st)@.list == list_insert(old(st)@.list, seg_node(offset as int, size as int), false), // [C10]
-    r ==> final(st)@.discarded == old(st)@.discarded + 8, // [C20]
-    !r ==> final(st)@ == (SV { discarded: old(st)@.discarded + (if offset == 0 || size == 0 { 0 } else { size as int }), ..old(st)@ }), // [C20]
-    frame_ok(old(st)@.list, old(st)@.bytes, final(st)@.bytes, offset as int, offset as int + size as int), // [C01]
-    free_grows(old(st)@, final(st)@, offset as int, offset as int + size as int), // [C01]
-    final(st)@.allocated == old(st)@.allocated, final(st)@.min_seg == old(st)@.min_seg, // [C01]
-    final(st)@.writable == old(st)@.writable, final(st)@.lo == old(st)@.lo,
+//@contract @optimistic_dealloc
 //@before 1 /let Some\(mut segment_node\) = self\.try_new_segment/
     proof { lemma_seg_node_bounds(offset as int, size as int); lemma_seg_valid_extent(self.av(), old(st)@, offset as int, size as int); }
 //@before 1 /return false;/
@@ -412,25 +337,7 @@ impl Arena {
 //@@fn file=unsync.rs scope="impl Arena {" name=alloc_slow_path_pessimistic xlate=unsync st=mut props=C01,C03,C04,C08,C09,C10,C20
 //@closure
   b == (val <= next_node_size)
-//@contract
-  requires
-    wf(self.av(), old(st)@),
-    self.freelist == Freelist::Pessimistic,
-    old(st)@.discarded + 8 <= u32::MAX as int, // [C20]
-  ensures
-    self.ro ==> r matches Err(Error::ReadOnly), // [C09 C04]
-    r.is_err() ==> final(st)@ == old(st)@, // [C04 C09]
-    !self.ro ==> (r.is_err() <==> pick(old(st)@.list, size, self.freelist) == old(st)@.list.len()), // [C10 C04]
-    r matches Err(e) ==> (e matches Error::ReadOnly) || (e matches Error::InsufficientSpace { .. }), // [C04]
-    r matches Ok(m) ==> slow_ok(self.av(), old(st)@, final(st)@, size, pick(old(st)@.list, size, self.freelist),
-          m.memory_offset as int, m.memory_size as int, m.ptr_offset as int, m.ptr_size as int), // [C10 C03 C20 C01]
-    r matches Ok(m) ==> all_zero(final(st)@.bytes, m.ptr_offset as int, m.ptr_offset as int + m.ptr_size as int), // [C08]
-    r matches Ok(m) ==> meta_ok(self.av(), final(st)@, m.memory_offset as int, m.memory_size as int, m.ptr_offset as int, m.ptr_size as int), // [C01]
-    free_shrinks(old(st)@, final(st)@), // [C01]
-    r matches Ok(m) ==> m.parent_ptr == self.ptr as *const u8,
-    frame_ok(old(st)@.list, old(st)@.bytes, final(st)@.bytes, 0, 0), // [C01]
-    wf_shape(self.av(), final(st)@), // [C01 C10]
-    wf_order(self.av(), final(st)@), // [C10]
+//@contract @alloc_slow_path_pessimistic
 //@before 1 /let Some\(\(\(prev_node_val, prev_node\), \(next_node_val, _\)\)\) =/
     let ghost s0 = st@;
     let ghost l = s0.list;
@@ -490,25 +397,7 @@ impl Arena {
 //@@end
 
 //@@fn file=unsync.rs scope="impl Arena {" name=alloc_slow_path_optimistic xlate=unsync st=mut props=C01,C03,C04,C08,C09,C10,C20
-//@contract
-  requires
-    wf(self.av(), old(st)@),
-    self.freelist == Freelist::Optimistic,
-    old(st)@.discarded + 8 <= u32::MAX as int, // [C20]
-  ensures
-    self.ro ==> r matches Err(Error::ReadOnly), // [C09 C04]
-    r.is_err() ==> final(st)@ == old(st)@, // [C04 C09]
-    !self.ro ==> (r.is_err() <==> pick(old(st)@.list, size, self.freelist) == old(st)@.list.len()), // [C10 C04]
-    r matches Err(e) ==> (e matches Error::ReadOnly) || (e matches Error::InsufficientSpace { .. }), // [C04]
-    r matches Ok(m) ==> slow_ok(self.av(), old(st)@, final(st)@, size, pick(old(st)@.list, size, self.freelist),
-          m.memory_offset as int, m.memory_size as int, m.ptr_offset as int, m.ptr_size as int), // [C10 C03 C20 C01]
-    r matches Ok(m) ==> all_zero(final(st)@.bytes, m.ptr_offset as int, m.ptr_offset as int + m.ptr_size as int), // [C08]
-    r matches Ok(m) ==> meta_ok(self.av(), final(st)@, m.memory_offset as int, m.memory_size as int, m.ptr_offset as int, m.ptr_size as int), // [C01]
-    free_shrinks(old(st)@, final(st)@), // [C01]
-    r matches Ok(m) ==> m.parent_ptr == self.ptr as *const u8,
-    frame_ok(old(st)@.list, old(st)@.bytes, final(st)@.bytes, 0, 0), // [C01]
-    wf_shape(self.av(), final(st)@), // [C01 C10]
-    wf_order(self.av(), final(st)@), // [C10]
+//@contract @alloc_slow_path_optimistic
 //@before 1 /let sentinel = st\.load\(CellRef::Sentinel\);/
     let ghost s0 = st@;
     let ghost l = s0.list;
@@ -569,20 +458,11 @@ impl Arena {
 // ---- discard_freelist ----------------------------------------------------------------------------------------------
 
 //@@fn file=unsync.rs scope="impl Arena {" name=discard_freelist_in xlate=unsync st=mut props=C20,C10
-//@contract
-  requires
-    wf(self.av(), old(st)@),
-    old(st)@.writable, // [C09]
-    old(st)@.discarded + sum_sizes(old(st)@.list) <= u32::MAX as int, // [C20]
-  ensures
-    r as int == sum_sizes(old(st)@.list), // [C20]
-    final(st)@ == (SV { list: Seq::<Node>::empty(), discarded: old(st)@.discarded + sum_sizes(old(st)@.list),
-                        sentinel: enc(SENTINEL_SEGMENT_NODE_SIZE, SENTINEL_SEGMENT_NODE_OFFSET), ..old(st)@ }), // [C20 C10]
-    wf(self.av(), final(st)@), // [C10]
+//@contract @discard_freelist_in
 //@loop 1
       invariant
         wf(self.av(), st@), st@.writable,
-        st@.bytes == old(st)@.bytes, st@.allocated == old(st)@.allocated, st@.min_seg == old(st)@.min_seg, st@.lo == old(st)@.lo, st@.writable == old(st)@.writable,
+        st@.bytes.len() == old(st)@.bytes.len(), discard_bytes_ok(old(st)@, st@), st@.allocated == old(st)@.allocated, st@.min_seg == old(st)@.min_seg, st@.lo == old(st)@.lo, st@.writable == old(st)@.writable,
         discarded as int + sum_sizes(st@.list) == sum_sizes(old(st)@.list),
         old(st)@.discarded + sum_sizes(old(st)@.list) <= u32::MAX as int,
         st@.discarded == old(st)@.discarded + discarded as int,
@@ -595,7 +475,7 @@ impl Arena {
         assert(word(s0, cell_of(l, -1)) == enc(size_of_cell(l, -1), next_of(l, -1)));
       }
 //@before 1 /return discarded;/
-        proof { assert(l =~= Seq::<Node>::empty()); assert(st@ =~= (SV { list: Seq::<Node>::empty(), discarded: old(st)@.discarded + sum_sizes(old(st)@.list), sentinel: enc(SENTINEL_SEGMENT_NODE_SIZE, SENTINEL_SEGMENT_NODE_OFFSET), ..old(st)@ })); }
+        proof { assert(l =~= Seq::<Node>::empty()); }
 //@before 1 /let head = self\.get_segment_node\(st, head_node_offset\);/
       proof {
         assert(l.len() > 0);
@@ -609,37 +489,21 @@ impl Arena {
         lemma_remove_bytes(self.av(), s0, st@, 0);
         lemma_remove_shape(self.av(), s0, st@, 0);
         lemma_remove_order(self.av(), s0, st@, 0);
+        lemma_discard_step(old(st)@, s0, st@);
         assert(sum_sizes(l) == l[0].1 as int + sum_sizes(l.remove(0)));
         lemma_sum_nonneg(l.remove(0));
       }
       let ghost s1 = st@;
 //@after 1 /st\.hdr\.discarded \+= segment_node\.data_size;/
       proof { lemma_wf_frame(self.av(), s1, st@, 0, 0); }
+//@before 1 /^\s*loop/
+    proof { lemma_discard_init(st@); }
 //@@end
 
 // ---- top-level allocation -------------------------------------------------------------------------------------------
 
 //@@fn file=unsync.rs scope="impl Arena {" name=alloc_bytes_in xlate=unsync st=mut props=C01,C03,C04,C08,C09,C10,C20
-//@contract
-  requires
-    wf(self.av(), old(st)@),
-    old(st)@.discarded + 8 <= u32::MAX as int, // [C20]
-  ensures
-    !self.ro && size == 0 ==> (r matches Ok(None)) && final(st)@ == old(st)@, // [C03]
-    !self.ro && size > 0 ==> (r.is_err() <==> alloc_fails(self.av(), old(st)@, size as int, size as int)), // [C10]
-    r matches Ok(None) ==> size == 0, // [C03]
-    r matches Ok(Some(m)) ==> alloc_bytes_ok(self.av(), old(st)@, final(st)@, size, m.memory_offset as int, m.memory_size as int, m.ptr_offset as int, m.ptr_size as int), // [C03 C10 C20]
-    r matches Ok(Some(m)) ==> m.ptr_size == size, // [C03]
-    r matches Ok(Some(m)) ==> all_zero(final(st)@.bytes, m.ptr_offset as int, m.ptr_offset as int + m.ptr_size as int), // [C08]
-    self.ro ==> r matches Err(Error::ReadOnly), // [C09 C04]
-    r.is_err() ==> final(st)@ == old(st)@, // [C04 C09]
-    r matches Err(e) ==> (e matches Error::ReadOnly) || (e matches Error::InsufficientSpace { .. }), // [C04]
-    r matches Ok(Some(m)) ==> meta_ok(self.av(), final(st)@, m.memory_offset as int, m.memory_size as int, m.ptr_offset as int, m.ptr_size as int), // [C01]
-    r matches Ok(Some(m)) ==> m.parent_ptr == self.ptr as *const u8,
-    free_shrinks(old(st)@, final(st)@), // [C01]
-    frame_ok(old(st)@.list, old(st)@.bytes, final(st)@.bytes, old(st)@.allocated, self.cap as int), // [C01]
-    wf_shape(self.av(), final(st)@), // [C01 C10]
-    wf_order(self.av(), final(st)@), // [C10]
+//@contract @alloc_bytes_in
 //@before 1 /let want = /
     let ghost s0 = st@;
 //@after 1 /unsafe \{ allocated\.clear\(self, st\) \};/
@@ -651,28 +515,7 @@ impl Arena {
 //@@end
 
 //@@fn file=unsync.rs scope="impl Arena {" name=alloc_in xlate=unsync st=mut props=C01,C03,C04,C08,C09,C10,C20
-//@contract
-  requires
-    wf(self.av(), old(st)@),
-    old(st)@.discarded + 8 <= u32::MAX as int, // [C20]
-    layout_ok::<T>(), size_of::<T>() as int + align_of::<T>() as int <= u32::MAX as int,
-    self.cap as int + align_of::<T>() as int <= u32::MAX as int,
-  ensures
-    !self.ro && size_of::<T>() == 0 ==> (r matches Ok(None)) && final(st)@ == old(st)@, // [C03]
-    !self.ro && size_of::<T>() > 0 ==> (r.is_err() <==> alloc_fails(self.av(), old(st)@,
-        align_up(old(st)@.allocated, align_of::<T>() as int) + size_of::<T>() as int - old(st)@.allocated, pad_of::<T>())), // [C03]
-    r matches Ok(None) ==> size_of::<T>() == 0, // [C03]
-    r matches Ok(Some(m)) ==> alloc_typed_ok::<T>(self.av(), old(st)@, final(st)@, m.memory_offset as int, m.memory_size as int, m.ptr_offset as int, m.ptr_size as int), // [C03]
-    self.ro ==> r matches Err(Error::ReadOnly), // [C09 C04]
-    r.is_err() ==> final(st)@ == old(st)@, // [C04 C09]
-    r matches Err(e) ==> (e matches Error::ReadOnly) || (e matches Error::InsufficientSpace { .. }), // [C04]
-    r matches Ok(Some(m)) ==> meta_ok(self.av(), final(st)@, m.memory_offset as int, m.memory_size as int, m.ptr_offset as int, m.ptr_size as int), // [C01]
-    r matches Ok(Some(m)) ==> m.parent_ptr == self.ptr as *const u8,
-    free_shrinks(old(st)@, final(st)@), // [C01]
-    frame_ok(old(st)@.list, old(st)@.bytes, final(st)@.bytes, old(st)@.allocated, self.cap as int), // [C01]
-    wf_shape(self.av(), final(st)@), // [C01 C10]
-    wf_order(self.av(), final(st)@), // [C10]
-    final(st)@.discarded >= old(st)@.discarded && final(st)@.min_seg == old(st)@.min_seg, // [C20]
+//@contract @alloc_in
 //@before 1 /let align_offset = align_offset::<T>\(allocated\);/
     let ghost s0 = st@;
 //@after 1 /unsafe \{ allocated\.clear\(self, st\) \};/
@@ -693,33 +536,7 @@ impl Arena {
 //@@end
 
 //@@fn file=unsync.rs scope="impl Arena {" name=alloc_aligned_bytes_in xlate=unsync st=mut props=C01,C03,C04,C09,C10,C20
-//@contract
-  requires
-    wf(self.av(), old(st)@),
-    old(st)@.discarded + 8 <= u32::MAX as int, // [C20]
-    layout_ok::<T>(), size_of::<T>() as int + align_of::<T>() as int <= u32::MAX as int,
-    self.cap as int + align_of::<T>() as int <= u32::MAX as int,
-  ensures
-    !self.ro && size_of::<T>() == 0 && extra == 0 ==> (r matches Ok(None)) && final(st)@ == old(st)@, // [C03]
-    r matches Ok(None) ==> size_of::<T>() == 0 && extra == 0, // [C03]
-    !self.ro && !(size_of::<T>() == 0 && extra == 0) ==> (r.is_err() <==> alloc_fails(self.av(), old(st)@,
-        align_up(old(st)@.allocated, align_of::<T>() as int) + size_of::<T>() as int + extra as int - old(st)@.allocated, pad_of::<T>() + extra as int)), // [C03]
-    r matches Ok(Some(m)) ==> (if size_of::<T>() == 0 && align_of::<T>() == 1 {
-        alloc_bytes_ok(self.av(), old(st)@, final(st)@, extra, m.memory_offset as int, m.memory_size as int, m.ptr_offset as int, m.ptr_size as int)
-      } else {
-        alloc_aligned_ok::<T>(self.av(), old(st)@, final(st)@, extra, m.memory_offset as int, m.memory_size as int, m.ptr_offset as int, m.ptr_size as int)
-      }), // [C03]
-    final(st)@.discarded >= old(st)@.discarded && final(st)@.min_seg == old(st)@.min_seg, // [C20]
-    r matches Ok(Some(m)) ==> m.ptr_offset as int % (align_of::<T>() as int) == 0 && m.ptr_size as int >= size_of::<T>() as int + extra as int, // [C03]
-    self.ro ==> r matches Err(Error::ReadOnly), // [C09 C04]
-    r.is_err() ==> final(st)@ == old(st)@, // [C04 C09]
-    r matches Err(e) ==> (e matches Error::ReadOnly) || (e matches Error::InsufficientSpace { .. }), // [C04]
-    r matches Ok(Some(m)) ==> meta_ok(self.av(), final(st)@, m.memory_offset as int, m.memory_size as int, m.ptr_offset as int, m.ptr_size as int), // [C01]
-    r matches Ok(Some(m)) ==> m.parent_ptr == self.ptr as *const u8,
-    free_shrinks(old(st)@, final(st)@), // [C01]
-    frame_ok(old(st)@.list, old(st)@.bytes, final(st)@.bytes, old(st)@.allocated, self.cap as int), // [C01]
-    wf_shape(self.av(), final(st)@), // [C01 C10]
-    wf_order(self.av(), final(st)@), // [C10]
+//@contract @alloc_aligned_bytes_in
 //@before 1 /let aligned_offset = align_offset::<T>\(allocated\);/
     let ghost s0 = st@;
 //@after 1 /allocated\.align_bytes_to::<T>\(\);/
@@ -738,18 +555,7 @@ impl Arena {
 // ---- release, discard, rewind, accessors (trait methods) ---------------------------------------------------------------
 
 //@@fn file=unsync.rs scope="impl Allocator for Arena {" name=dealloc xlate=unsync st=mut props=C01,C10,C13,C20
-//@contract
-  requires
-    wf(self.av(), old(st)@),
-    !self.ro && old(st)@.writable, // [C09]
-    extent_ok(self.av(), old(st)@, offset as int, size as int), // [C01 C13]
-    old(st)@.discarded + size as int <= u32::MAX as int, // [C20]
-  ensures
-    dealloc_post(self.av(), old(st)@, final(st)@, offset as int, size as int, r), // [C10 C20 C01]
-    free_grows(old(st)@, final(st)@, offset as int, offset as int + size as int), // [C01]
-    frame_ok(old(st)@.list, old(st)@.bytes, final(st)@.bytes, offset as int, offset as int + size as int), // [C01]
-    wf_shape(self.av(), final(st)@), // [C01 C10]
-    wf_order(self.av(), final(st)@), // [C10]
+//@contract @dealloc
 //@before 1 /st\.hdr\.allocated = offset;/
       let ghost s0 = st@;
 //@after 1 /st\.hdr\.allocated = offset;/
@@ -757,49 +563,28 @@ impl Arena {
 //@@end
 
 //@@fn file=unsync.rs scope="impl Allocator for Arena {" name=discard_freelist xlate=unsync st=mut props=C20,C09,C10
-//@contract
-  requires
-    wf(self.av(), old(st)@),
-    old(st)@.discarded + sum_sizes(old(st)@.list) <= u32::MAX as int, // [C20]
-  ensures
-    self.ro ==> (r matches Err(Error::ReadOnly)) && final(st)@ == old(st)@, // [C09 C20]
-    !self.ro ==> (r matches Ok(n) && n as int == sum_sizes(old(st)@.list)), // [C20]
-    !self.ro ==> final(st)@.list.len() == 0 && final(st)@.discarded == old(st)@.discarded + sum_sizes(old(st)@.list), // [C20 C10]
-    final(st)@.allocated == old(st)@.allocated && final(st)@.bytes == old(st)@.bytes && final(st)@.min_seg == old(st)@.min_seg, // [C20 C01]
-    wf(self.av(), final(st)@), // [C10]
+//@contract @discard_freelist
 //@@end
 
 //@@fn file=unsync.rs scope="impl Allocator for Arena {" name=discarded xlate=unsync st=ref props=C20
-//@contract
-  ensures r as int == st@.discarded, // [C20 C11]
+//@contract @discarded
 //@@end
 
 //@@fn file=unsync.rs scope="impl Allocator for Arena {" name=minimum_segment_size xlate=unsync st=ref props=C10
-//@contract
-  ensures r as int == st@.min_seg, // [C10 C11 C16]
+//@contract @minimum_segment_size
 //@@end
 
 //@@fn file=unsync.rs scope="impl Allocator for Arena {" name=set_minimum_segment_size xlate=unsync st=mut props=C10,C09
-//@contract
-  requires !self.ro && old(st)@.writable, // [C09]
-  ensures final(st)@ == (SV { min_seg: size as int, ..old(st)@ }), // [C10 C11]
+//@contract @set_minimum_segment_size
 //@@end
 
 //@@fn file=unsync.rs scope="impl Allocator for Arena {" name=set_minimum_segment_size rename=set_minimum_segment_size__ro xlate=unsync st=mut props=C09
 //@subst /rt_panic\(\)/ => rt_panic_documented()
-//@contract
-  requires self.ro && !old(st)@.writable,
-  ensures false, // [C09]
+//@contract @set_minimum_segment_size__ro
 //@@end
 
 //@@fn file=unsync.rs scope="impl Allocator for Arena {" name=rewind xlate=unsync st=mut props=C17
-//@contract
-  requires
-    geom(self.av(), old(st)@),
-    old(st)@.writable, // [C09]
-  ensures
-    final(st)@ == (SV { allocated: rewind_target(self.av(), old(st)@, pos), ..old(st)@ }), // [C17]
-    self.data_offset as int <= final(st)@.allocated <= self.cap as int, // [C17]
+//@contract @rewind
 //@@end
 
 } // impl Arena
